@@ -14,6 +14,7 @@ CONSTANTS
   CraftToks = {"TA", "TV2"}
   MaxPresent = 2
   Calls = {"exchange", "disconnect", "leave"}
+  PumpPay = FALSE
   HealRounds = 0
   HealDt = 250
   Bound = 0
